@@ -20,8 +20,11 @@ import numpy as np
 from .. import graph, tlc
 
 MODULE = "refsig/RefSession.tla"
-SESS_INVARIANTS = ["SessTypeOK", "FrameRoot", "FrameUsers", "CallDependsOnArgsOnly"]
+SESS_INVARIANTS = ["SessTypeOK", "FrameRoot", "FrameUsers", "CallDependsOnArgsOnly", "EarlierResultsUnchanged"]
 COVERS = [[], [1, 1], [1, -1], [-1, 1]]
+# laws named in the `req` set of a session step that run_path evaluates after / during that step
+EVALUATED = {"ArgumentsUnchanged", "FrameRoot", "FrameUsers", "EarlierResultsUnchanged", "CallDependsOnArgsOnly",
+             "EstimateHomogeneous"}
 
 
 def all_descriptors():
@@ -77,6 +80,7 @@ DEV_RUNS = {
     # flag -> (alphabet, MaxUsers, MaxEsts, variants, invariants one of which TLC must report)
     "UserCreationAliasesRoot": ([dict(fam="srs", ncs=0, cover=[], normalize=True), dict(fam="srs", ncs=3, cover=[], normalize=False),
                                  dict(fam="dmrs", ncs=0, cover=[], normalize=False)], 3, 1, [1, 2], {"FrameRoot", "FrameUsers", "CallDependsOnArgsOnly"}),
+    "ResultBufferReused": ([dict(fam="srs", ncs=2, cover=[], normalize=False)], 1, 1, [1, 2], {"EarlierResultsUnchanged"}),
     "WindowCachedOnEstimator": ([dict(fam="srs", ncs=2, cover=[], normalize=False), dict(fam="dmrs", ncs=5, cover=[1, -1], normalize=True)],
                                 2, 1, [1, 3], {"CallDependsOnArgsOnly"}),
 }
@@ -113,6 +117,7 @@ def run_path(job):
     want_root = c18.unit(root_e, nzc)
     tol = c18.phase_tol(u, L, nzc)
     users, wants, ests = [], [], []
+    held = []                      # (step, result object, copy at return): EarlierResultsUnchanged
 
     def frame(i, op):
         d = c18.maxdiff(root.seq_array(), want_root)
@@ -129,6 +134,9 @@ def run_path(job):
     ops_desc = []
     okc = 0
     for i, op in enumerate(ops):
+        missing = set(op.get("req", ())) - EVALUATED
+        if missing:
+            raise tlc.TlcError(f"RefSession requires laws the replay does not evaluate: {sorted(missing)}")
         try:
             if op["kind"] == "s-user":
                 d = op["d"]
@@ -147,8 +155,11 @@ def run_path(job):
             elif op["kind"] == "s-est":
                 e, ui, o = ests[op["est"] - 1]
                 rec = estcat[key({"d": ops_desc[ui], "o": o, "v": op["v"]})]
-                got, want, truth = c18.estimate(rec["sc"], rec["est"], root, users[ui], e)
-                scale = max(1.0, float(np.max(np.abs(truth))))
+                facs = [1.0] + [c18.scale_of(q) for q in rec["scales"]]
+                f = facs[(i + op["v"]) % len(facs)]          # observations of very different magnitude on one object
+                got, want, truth = c18.estimate(rec["sc"], rec["est"], root, users[ui], e, factor=f)
+                held.append((i, got, np.array(got, copy=True)))
+                scale = f * max(1.0, float(np.max(np.abs(truth))) / f)
                 dd = max(c18.maxdiff(got, want), c18.maxdiff(got, truth))
                 if dd > c18.TOL_REL * scale:
                     sc = rec["sc"]
@@ -162,6 +173,10 @@ def run_path(job):
         bad = frame(i, op)
         if bad:
             return okc, bad
+        for st, obj, cp in held:
+            if obj.shape != cp.shape or not np.array_equal(obj, cp):
+                return okc, {"step": i, "op": op, "what": f"after step {i} ({op['kind']}): the array returned by call {st} was "
+                             f"overwritten (EarlierResultsUnchanged)"}
         okc += 1
     return okc, None
 
